@@ -85,7 +85,9 @@ def run(facts, cg=None):
             finding('R-SEEDOUT', b, 'missing', 'the clone command never re-orders the output in place')
         for kind, loc, guard in r.violations:
             finding('R-SEEDOUT', b, 'bypass', 'a success path with --seed-output=%s does not reuse the prior output (its chunks would be fetched again)' % guard)
-        writer_bodies = {x.id for x in facts.bodies.values() if x.q.endswith('CloneOutput::write_offset')}
+        from . import r_who
+        wq = {s_['in'] for s_ in r_who.inner_writers(facts) if not s_['api'].endswith('set_len')}
+        writer_bodies = {x.id for x in facts.bodies.values() if x.q in wq}
         def may_write(b_, bi, t):
             d = t['callee'].get('rdef') or t['callee'].get('def')
             if d in facts.bodies:
